@@ -51,3 +51,12 @@ package tchannel
 //@   property C04
 //@ func (l *PeerList) GetNew(prevSelected map[string]struct{}) (peer *Peer, err error)
 //@   property C04
+
+// Stopping a table (on a connection failure): nstopped(table) counts the stops.
+//@ ghostfield nstopped
+//@ func (mexset *messageExchangeSet) stopExchanges(err error)
+//@   nosafety
+//@   requires err != nil
+//@   modifies allbut own, Frame, errAttempts, closeReq, connErrs, connErrCode, sysErrID, sysErrCode, sysErrMsg, lookupHit, nadmit, admitted, nends, ndec, writableFragment, fragmentingWriter, cs, Connection, nstopped, fragmentingReader, doneCalls, doneCode, reqResReader, InboundCall, OutboundCallResponse
+//@   defines nstopped(mexset) == old(nstopped(mexset)) + 1
+//@   property C04 C14
